@@ -24,12 +24,17 @@ def main():
     rc, out = sh("git -C /repo worktree add --detach %s HEAD" % wt, "/")
     try:
         demo = open(os.path.join(d, "DEMO.txt")).read()
-        tests = [f for f in glob.glob(os.path.join(d, "*_test.go"))]
+        tests = [f for f in glob.glob(os.path.join(d, "**", "*_test.go"), recursive=True)]
         if not tests:
             res["why"] = "no demo test file"; return res
         placed = []
         for t in tests:
             base = os.path.basename(t)
+            if os.path.dirname(t) != d:
+                rel = os.path.relpath(t, d)
+                os.makedirs(os.path.dirname(os.path.join(wt, rel)), exist_ok=True)
+                shutil.copy(t, os.path.join(wt, rel)); placed.append(rel)
+                continue
             m = re.search(r'([\w./-]*/' + re.escape(base) + r')', demo)
             if not m:
                 res["why"] = "cannot find placement of " + base; return res
